@@ -87,9 +87,7 @@ def compare(c, inputs, keep=False, budget=None, outdir_missing=False, what='batc
     model = run_model(c, inputs, keep, budget, outdir_missing)
     failed = [r != 'ok' for r in impl['reports']]
     def proj(files, reports):
-        # content of a failed run kept with -k is outside the model's fidelity (see DESIGN: state at the failure point)
-        bad = set(outname(i['stem']) for i, r in zip(inputs, reports) if r != 'ok' and i['stem'] is not None)
-        return {k: (v if k not in bad or not keep else b'<kept>') for k, v in files.items()}
+        return files          # also the content a failed run leaves behind under -k is modelled (Model/Cli.lean addStmtsKeep)
     same = impl['exit'] == model['exit'] and impl['reports'] == model['reports'] and proj(impl['dir'], impl['reports']) == proj(model['dir'], model['reports'])
     if not same:
         desc = dict(inputs=[dict(stem=i['stem'], src=(i['src'].decode('utf-8', 'replace')[:400] if i['src'] is not None else None), isdir=bool(i.get('isdir'))) for i in inputs],
